@@ -14,8 +14,11 @@ limitations under the License.
 package metadata
 
 import (
+	"errors"
 	"fmt"
 	"reflect"
+	"strconv"
+	"strings"
 
 	"github.com/mitchellh/mapstructure"
 	"github.com/spf13/cast"
@@ -78,6 +81,10 @@ func toByteSizeHookFunc() mapstructure.DecodeHookFunc {
 		}
 
 		// Parse as quantity
+		err = checkQuantityExponent(str)
+		if err != nil {
+			return nil, fmt.Errorf("value is not a valid quantity: %w", err)
+		}
 		q, err := resource.ParseQuantity(str)
 		if err != nil {
 			return nil, fmt.Errorf("value is not a valid quantity: %w", err)
@@ -90,4 +97,30 @@ func toByteSizeHookFunc() mapstructure.DecodeHookFunc {
 		}
 		return res, nil
 	}
+}
+
+// maxQuantityExponent is the largest decimal exponent, in absolute value, accepted in a byte size.
+// The largest quantity has 19 digits and the finest unit is 1e-9, so a larger exponent never denotes a usable size.
+const maxQuantityExponent = 1000
+
+// checkQuantityExponent rejects a decimal exponent ("1e-2147483647") that is out of any useful range.
+// resource.ParseQuantity computes 10^|exponent| exactly before capping or rounding the value,
+// which for such an exponent takes an unbounded amount of time and memory.
+func checkQuantityExponent(str string) error {
+	i := strings.LastIndexAny(str, "eE")
+	if i < 0 || i == len(str)-1 {
+		return nil
+	}
+	exp, err := strconv.Atoi(str[i+1:])
+	if err != nil {
+		if errors.Is(err, strconv.ErrRange) {
+			return errors.New("exponent out of range")
+		}
+		// Not a decimal exponent (for example the suffix "Ei"): left to ParseQuantity
+		return nil
+	}
+	if exp > maxQuantityExponent || exp < -maxQuantityExponent {
+		return errors.New("exponent out of range")
+	}
+	return nil
 }
